@@ -14,7 +14,7 @@ import (
 // instrumented build of internal/graph, internal/concurrency and sourcegraph/conc) and merges its
 // summary: the schedule-quantified part of C02.
 func c02Reducers(o *core.Options, r *core.Report) {
-	bin := core.Root + "/.build/bin/red"
+	bin := core.BinDir() + "/red"
 	if _, err := os.Stat(bin); err != nil {
 		r.Violate("harness-reducer-binary-missing", "the instrumented reducer harness was not built: "+err.Error(), nil)
 		return
